@@ -80,6 +80,10 @@ func (fr *frame) get(key ssa.Value) Value {
 	case *ssa.Const:
 		return fr.e.constValue(key)
 	case *ssa.Global:
+		if p, ok := fr.e.globals[key]; ok {
+			return p
+		}
+		fr.e.curFn = fr.fn
 		return fr.e.global(key)
 	}
 	if r, ok := fr.env[key]; ok {
@@ -94,7 +98,11 @@ func (e *Exec) global(g *ssa.Global) *Value {
 	}
 	if g.Pkg != nil && !e.ld.initAllowed(g.Pkg) {
 		if !e.ld.globalOK(g) {
-			unsupported("read of global %s of package whose init is not executed", g.String())
+			in := ""
+			if e.curFn != nil {
+				in = " (in " + e.curFn.String() + ")"
+			}
+			unsupported("read of global %s of package whose init is not executed%s", g.String(), in)
 		}
 	}
 	cell := e.zero(g.Type().(*types.Pointer).Elem())
